@@ -28,6 +28,8 @@ def run(rep, tier, seed, replay):
                 "negation discards at least one entry and keeps at least one")
     n = 420 if tier == "quick" else 6000
     cases = walklib.gen_cases(seed, n, stack=not_stack, bounds="none")
+    # witnesses of repaired defects and of seeded changes run first
+    cases = [walklib.case_from(w) for w in common.load_corpus("C03")] + cases
     if replay is not None:
         cases = [walklib.case_from(replay["input"])]
     twins = [c.clone(stack="-") for c in cases]
